@@ -32,6 +32,15 @@ connectionLost; the body consumer that hangs up inside dataReceived on a transpo
     body consumer's connectionMade / dataReceived; the transport then reports the close; same expectations as any loss;
   * request body in transit: a POST whose IBodyProducer (Content-Length or chunked) is still producing while response
     bytes arrive, the connection is lost, or abort() is called; the producer's writes and its end are scheduler ops.
+  * the quiescent callback (the hook a connection pool passes to HTTP11ClientProtocol, called when a persistent
+    connection can be reused) does what pools do: returns, raises, gives the connection up (abort()), or starts the
+    next request at once; the finished response's expectations are unchanged whatever the hook does;
+  * a transport that hands over a few more pieces after pauseProducing (TLS transports do: what was already decrypted
+    still arrives), so that several pieces are buffered by the Response before a consumer is attached; the consumer
+    may hang up from inside dataReceived while deliverBody() is still handing over buffered pieces;
+  * a server that stops making sense: the status line, or the size line of a chunk, is malformed.  The header block
+    then never completes (request Deferred: exactly one failure), respectively the body never completes (consumer:
+    exactly the body bytes before the malformation, connectionLost exactly once with a failure).
 """
 import h11
 from zope.interface import implementer
@@ -63,9 +72,11 @@ COMPONENTS = {"real": ["twisted.web._newclient.HTTP11ClientProtocol", "twisted.w
 RULE = ("run = 1-2 requests on one connection; per request a drawn response spec (status code: common / any registered / any 200-599), "
         "serialiser, loss offset k in [0,len], delivery segmentation, "
         "deliverBody timing and pause/resume schedule; in a share of the rounds the loss is caused by the application (abort() from the "
-        "scheduler, the request callback or the body consumer) and/or the request has a body still in transit; non-trivial = the connection was lost strictly inside a response (0<k<len) or the "
+        "scheduler, the request callback or the body consumer) and/or the request has a body still in transit; the quiescent callback returns / "
+        "raises / aborts / issues the next request; the transport may deliver a few pieces after being paused; the consumer may hang up "
+        "while buffered pieces are handed over; the status line or a chunk-size line may be malformed; non-trivial = the connection was lost strictly inside a response (0<k<len) or the "
         "response used chunked/close framing or an interim 1xx, and at least one delivery was segmented")
-ASSUMPTIONS = ["responses are well-formed HTTP/1.x messages (CRLF line endings); requests have no body (C24 covers request bodies) except in the "
+ASSUMPTIONS = ["responses are well-formed HTTP/1.x messages (CRLF line endings) except in the malformed-line family below; requests have no body (C24 covers request bodies) except in the "
                "request-body-in-transit family, whose producer writes exactly its announced length and never fails",
                "connection loss may be reported while the transport is paused (ITransport allows it)",
                "a transport told to close (abort(), or the client's own loseConnection) delivers no further bytes and reports the loss later",
@@ -75,10 +86,31 @@ ASSUMPTIONS = ["responses are well-formed HTTP/1.x messages (CRLF line endings);
                "status codes outside 200-599 and the interim code 101 are not generated",
                "knobs abort_in_close_body / abort_while_transmitting (p=0.75 each, only in rounds with an abort) gate the preconditions of two "
                "genuine defects found by these families and repaired in /repo in round 5 (864f11a: abort() inside a close-delimited body, consumer "
-               "never told; ed25b2f: abort() while the request body is in transit, request Deferred never fired) so that the other abort rounds "
-               "exercise everything else whether or not those defects are present"]
+               "never told; ed25b2f: abort() while the request body is in transit, request Deferred never fired); the remaining quarter of the abort rounds "
+               "keeps away from them (dev-time comparison with a tree without the repairs)",
+               "a transport may hand over a few more pieces after pauseProducing (IPushProducer.pauseProducing is advisory about data "
+               "already in flight; TLSMemoryBIOProtocol delivers everything it has decrypted)",
+               "malformed input is limited to spellings every HTTP/1.x parser must reject (status line without a status code, non-numeric "
+               "status code, version without a minor number; chunk-size lines that are not hexadecimal); the statement's 'otherwise with a "
+               "failure' / 'a failure for a truncated one' is applied to them: no verdict on the moment the failure is reported before the "
+               "connection is gone, only that no Response / no ResponseDone is reported and that exactly one failure has been by then",
+               "knobs (module constants below, drawn per run/round) gate the preconditions of two genuine defects of the tree as first examined, "
+               "found in round 6 and REPAIRED in /repo: MALFORMED_WHILE_TRANSMITTING_P (f7168f5; malformed response while the request body is in "
+               "transit: the request Deferred never fired, connectionLost raised AttributeError) and REQUEST_FROM_QUIESCENT_CALLBACK_P (177d173; "
+               "request() issued from inside the quiescent callback: the new request was failed at once and the finished response's consumer was "
+               "never told); each precondition is let into a quarter of the runs (0.25; 0 only for dev-time comparison); "
+               "their violations carry the witness suffixes '+malformed-while-transmitting' / '+request-from-quiescent-callback'"]
+
+# Knobs gating the preconditions of genuine defects since REPAIRED in /repo (f7168f5, 177d173; see ASSUMPTIONS): probability that a run /
+# round may enter the precondition (0 only for dev-time comparison).
+MALFORMED_WHILE_TRANSMITTING_P = 0.25
+REQUEST_FROM_QUIESCENT_CALLBACK_P = 0.25
 
 PIECES = [None, 1, 2, 3, 5, 8, 17, 64]
+NEVER = 10 ** 9          # "offset" of an end that is never reached
+# a status line needs a version with major.minor and a numeric status code; a chunk size is 1*HEXDIG (RFC 9112 sections 4, 7.1)
+BAD_STATUS_LINES = [b"garbage", b"HTTP/1.1", b"HTTP/1.1 2x0 OK", b"HTTP/1 200 OK", b"HTTP/1.1 OK"]
+BAD_CHUNK_SIZES = [b"zz", b"1g", b"-1", b"0x2", b"+3"]
 
 
 def show(results):
@@ -107,8 +139,11 @@ class Seg:
         self.data_ranges = []
         self.head_end = None
         self.interim_ends = []
+        self.bad_from = None     # offset of the first malformed byte, if the server stops making sense
         off = 0
         for kind, d in self.parts:
+            if kind == "bad" and self.bad_from is None:
+                self.bad_from = off
             if kind == "data":
                 self.data_ranges.append((off, off + len(d)))
             off += len(d)
@@ -117,6 +152,24 @@ class Seg:
             if kind == "interim":
                 self.interim_ends.append(off)
         self.end = off
+        if self.bad_from is not None:
+            self.end = NEVER               # the message never completes ...
+            if self.head_end is None:
+                self.head_end = NEVER      # ... nor does its header block, if the status line is the malformed part
+
+    def malform(self, sim, where):
+        """Replace the status line of the final response (where="status") or the size line of one chunk (where="chunk") by
+        something every HTTP/1.x parser must reject; what followed it on the wire is kept as unlabelled junk."""
+        parts = self.parts
+        if where == "status":
+            i = [j for j, (kind, _) in enumerate(parts) if kind == "head"][0]
+            rest = parts[i][1].split(b"\r\n", 1)[1]
+            bad = sim.draw_choice(BAD_STATUS_LINES, "bad_status_line") + b"\r\n" + rest
+        else:
+            sizes = [j for j, (kind, d) in enumerate(parts) if kind == "fr" and d != b"\r\n"]
+            i = sizes[sim.draw_int(0, len(sizes) - 1, "bad_chunk_no")]
+            bad = sim.draw_choice(BAD_CHUNK_SIZES, "bad_chunk_size") + b"\r\nxy\r\n"
+        self.parts = parts[:i] + [("bad", bad)] + [("junk", d) for _, d in parts[i + 1:]]
 
     def body_received(self, pos):
         return b"".join(self.wire[s:min(e, pos)] for s, e in self.data_ranges if s < pos)
@@ -327,13 +380,13 @@ def serialise_h11(sim, spec, seg, request_bytes, method):
 
 # ------------------------------------------------------------------ one request/response round
 
-def issue(sim, proto, t, round_no):
+def issue(sim, proto, t, round_no, origin=None):
     """Issue one request now (possibly from inside a callback); the response is driven later by one_round(pre=...)."""
     method = sim.draw_weighted([(b"GET", 5), (b"HEAD", 2), (b"POST", 1)], "method")
     persistent = sim.draw_bool(0.5, "persistent")
     nwritten = len(t.written)
     req = _newclient.Request(method, b"/r%d" % round_no, Headers({b"host": [b"sim.example"]}), None, persistent=persistent)
-    pre = {"method": method, "persistent": persistent, "results": [], "on_result": None}
+    pre = {"method": method, "persistent": persistent, "results": [], "on_result": None, "origin": origin}
 
     def cb(res):
         pre["results"].append(res)
@@ -364,7 +417,13 @@ def one_round(sim, proto, t, round_no, flags, pre=None, on_body_lost=None):
         n = sim.draw_int(1, 12, "request_body_len")
         tx = RequestBody(UNKNOWN_LENGTH if sim.draw_bool(0.4, "request_body_chunked") else n, n)
         sim.probe("request_with_body_in_transit")
-    if spec["framing"] == "close" or tx is not None:
+    # Family: the server stops making sense (malformed status line / chunk-size line).
+    malformed = sim.draw_weighted([(None, 14), ("status", 1), ("chunk", 1)], "malformed")
+    if malformed == "chunk" and spec["framing"] != "chunked":
+        malformed = None
+    if malformed and tx is not None and not flags.get("malformed_while_transmitting"):
+        malformed = None         # knob: see ASSUMPTIONS (repaired defect's precondition let into a quarter of the runs)
+    if spec["framing"] == "close" or tx is not None or malformed:
         use_h11 = False          # h11 never produces a close-delimited body for an HTTP/1.1 client (and is fed body-less requests here)
     else:
         use_h11 = sim.draw_bool(0.5, "h11")
@@ -372,7 +431,34 @@ def one_round(sim, proto, t, round_no, flags, pre=None, on_body_lost=None):
     req = None if pre is not None else _newclient.Request(method, b"/r%d" % round_no, Headers({b"host": [b"sim.example"]}), tx, persistent=persistent)
     results = [] if pre is None else pre["results"]
     rec = {"made": 0, "data": b"", "lost": [], "data_after_lost": False, "on_lost": on_body_lost}
-    st = {"body": None, "attach": sim.draw_weighted([("callback", 4), ("later", 4), ("after_loss", 2)], "attach")}
+    st = {"body": None, "attach": sim.draw_weighted([("callback", 4), ("later", 4), ("after_loss", 2)], "attach"), "attaching": False}
+    # Family: a transport that still hands over this many pieces after it was told to pause (what it had already received).
+    paused_credit = [sim.draw_weighted([(0, 5), (1, 1), (2, 2), (4, 1)], "deliveries_after_pause")]
+    # Family: what the quiescent callback (the connection pool's hook) does when this round's response has completed on a
+    # persistent connection.
+    qc_mode = sim.draw_weighted([("return", 12), ("raise", 3), ("abort", 1), ("request", 2)], "quiescent_callback")
+    if qc_mode == "request" and not (round_no == 0 and pre is None and flags.get("request_from_quiescent_callback")):
+        qc_mode = "return"       # knob: see ASSUMPTIONS (repaired defect's precondition let into a quarter of the runs)
+    qc = {"requested": pre is not None and pre["origin"] == "quiescent_callback"}   # this round's request, or the next one, was issued by the hook
+
+    def on_quiescent():
+        sim.event("quiescent-callback", qc_mode)
+        sim.probe("quiescent_callback_" + qc_mode)
+        if qc_mode == "raise":
+            sim.fault("quiescent_callback_raised")
+            raise RuntimeError("the pool refuses the connection")
+        if qc_mode == "abort":
+            do_abort("quiescent-callback")
+        elif qc_mode == "request":
+            flags["issue_second"]("quiescent_callback")
+            qc["requested"] = bool(flags.get("second_issued"))
+
+    flags["on_quiescent"] = on_quiescent
+
+    msuf = ("+malformed-while-transmitting" if tx is not None else "+malformed") if malformed else ""
+
+    def suffix():
+        return ("+abort" if ab["done"] else "") + msuf + ("+request-from-quiescent-callback" if qc["requested"] else "")
     pause_p = sim.draw_choice([0.0, 0.0, 0.3], "pause_p")
     abort_from = sim.draw_weighted([(None, 16), ("scheduler", 3), ("request-callback", 1), ("body-connectionMade", 1), ("body-dataReceived", 2)], "abort_from")
     if abort_from == "request-callback":
@@ -385,8 +471,12 @@ def one_round(sim, proto, t, round_no, flags, pre=None, on_body_lost=None):
         resp = results[0]
         st["body"] = Body(sim, rec, pause_p)
         sim.event("deliverBody")
-        with sim.guard("raised", "deliverBody"):
-            resp.deliverBody(st["body"])
+        st["attaching"] = True
+        try:
+            with sim.guard("raised", "deliverBody"):
+                resp.deliverBody(st["body"])
+        finally:
+            st["attaching"] = False
 
     def on_result(res):
         if pre is None:
@@ -415,6 +505,9 @@ def one_round(sim, proto, t, round_no, flags, pre=None, on_body_lost=None):
         serialise_h11(sim, spec, seg, request_bytes, method)
     else:
         serialise_hand(sim, spec, seg)
+    if malformed:
+        seg.malform(sim, malformed)
+        sim.fault("malformed_" + malformed + "_line")
     seg.finish()
     S = seg.wire
     total = len(S)
@@ -422,7 +515,7 @@ def one_round(sim, proto, t, round_no, flags, pre=None, on_body_lost=None):
     clean = sim.draw_bool(0.5, "clean_loss")
     style = sim.draw_choice(PIECES, "piece_style")   # None = whole, else max piece size
     sim.event("round", round_no, method, "persistent" if persistent else "close", "h11" if use_h11 else "hand",
-              spec["framing"], spec["code"], "interims=%d" % len(spec["interims"]), "len=%d" % total, "k=%d" % k, S)
+              spec["framing"], spec["code"], "interims=%d" % len(spec["interims"]), "len=%d" % total, "k=%d" % k, "malformed=%s" % malformed, S)
     framing = spec["framing"]
     resp_close = spec["conn_close"] or not persistent or b"connection: close" in S[:seg.head_end].lower()
     pos = 0
@@ -450,13 +543,13 @@ def one_round(sim, proto, t, round_no, flags, pre=None, on_body_lost=None):
                               lambda: "whole response delivered (%d bytes), request body still in transit, request Deferred silent" % pos)
                     return
             else:
-                sim.check("request-fires-when-lost", len(results) == 1, "request-body-in-transit",
+                sim.check("request-fires-when-lost", len(results) == 1, "request-body-in-transit" + msuf,
                           lambda: "connection lost after %d response bytes while the request body was being written%s: results=%s"
                           % (pos, " (application abort)" if ab["done"] else "", show(results)))
                 if isinstance(results[0], Failure):
                     return
         if head_done:
-            sim.check("response-when-headers-complete", len(results) == 1 and not isinstance(results[0], Failure), framing,
+            sim.check("response-when-headers-complete", len(results) == 1 and not isinstance(results[0], Failure), framing + suffix().replace("+abort", ""),
                       lambda: "header block complete at %d, delivered %d bytes, results=%s wire=%r" % (seg.head_end, pos, show(results), S[:pos]))
             r = results[0]
             sim.check("response-code", r.code == spec["code"], "response", "code %r expected %r" % (r.code, spec["code"]))
@@ -474,10 +567,14 @@ def one_round(sim, proto, t, round_no, flags, pre=None, on_body_lost=None):
             explen = {"none": 0, "cl": len(spec["body"])}.get(framing, _newclient.UNKNOWN_LENGTH)
             sim.check("response-length", r.length == explen, framing, "length %r expected %r" % (r.length, explen))
         elif lost[0] is not None:
-            sim.check("failure-when-lost-before-headers", len(results) == 1 and isinstance(results[0], Failure), "deferred",
+            sim.check("failure-when-lost-before-headers", len(results) == 1 and isinstance(results[0], Failure), "deferred" + suffix().replace("+abort", ""),
                       lambda: "lost after %d bytes (header block ends at %d): results=%s" % (pos, seg.head_end, show(results)))
+        elif malformed == "status" and pos > seg.bad_from:
+            # the client may already have seen that the status line is malformed: a failure may have been reported, a Response not
+            sim.check("no-response-without-header-block", not [r for r in results if not isinstance(r, Failure)], "malformed-status-line",
+                      lambda: "fired with %s; status line malformed from offset %d, delivered %d" % (show(results), seg.bad_from, pos))
         else:
-            sim.check("no-early-result", not results, "deferred", lambda: "fired with %s after %d of %d header bytes" % (show(results), pos, seg.head_end))
+            sim.check("no-early-result", not results, "deferred" + suffix().replace("+abort", ""), lambda: "fired with %s after %d of %d header bytes" % (show(results), pos, seg.head_end))
         if st["body"] is not None:
             exp = seg.body_received(pos)
             sim.check("body-bytes-equal", rec["data"] == exp, framing,
@@ -485,7 +582,7 @@ def one_round(sim, proto, t, round_no, flags, pre=None, on_body_lost=None):
             sim.check("body-made-once", rec["made"] == 1, "body", "makeConnection x%d" % rec["made"])
             sim.check("no-data-after-lost", not rec["data_after_lost"], "body", "dataReceived after connectionLost")
             if body_done or lost[0] is not None:
-                sim.check("body-connectionLost-once", len(rec["lost"]) == 1, framing + ("+abort" if ab["done"] else ""),
+                sim.check("body-connectionLost-once", len(rec["lost"]) == 1, framing + suffix(),
                           lambda: "connectionLost x%d (body_done=%s lost=%s) reasons=%s" % (len(rec["lost"]), body_done, lost[0] is not None, show(rec["lost"])))
                 rs = rec["lost"][0]
                 if body_done:
@@ -499,6 +596,12 @@ def one_round(sim, proto, t, round_no, flags, pre=None, on_body_lost=None):
                     want_r = "a failure (truncated)"
                 sim.check("body-loss-reason", ok, framing + ":" + want_r.split()[0],
                           lambda: "connectionLost(%s) expected %s; pos=%d end=%d" % (show([rs]), want_r, pos, seg.end))
+            elif malformed and pos > seg.bad_from:
+                # the client may already have seen the malformed chunk-size line: the body may have been ended - with a failure
+                sim.check("body-connectionLost-once", len(rec["lost"]) <= 1, framing + suffix(),
+                          lambda: "connectionLost x%d after a malformed chunk-size line: %s" % (len(rec["lost"]), show(rec["lost"])))
+                sim.check("body-loss-reason", not rec["lost"] or rec["lost"][0].check(_newclient.ResponseDone, PotentialDataLoss) is None,
+                          framing + ":a" + msuf, lambda: "connectionLost(%s) for a body cut short by a malformed chunk-size line" % show(rec["lost"]))
             else:
                 sim.check("body-not-finished-early", not rec["lost"], framing,
                           lambda: "connectionLost(%s) after %d of %d bytes, connection up" % (show(rec["lost"]), pos, seg.end))
@@ -521,7 +624,7 @@ def one_round(sim, proto, t, round_no, flags, pre=None, on_body_lost=None):
             flags["cut_inside"] = flags.get("cut_inside", 0) + (1 if pos > 0 else 0)
         else:
             sim.fault("connection_lost_after_response")
-        with sim.guard("raised", "connectionLost"):
+        with sim.guard("raised", "connectionLost" + msuf):
             t.lose(reason)
 
     # Family: the APPLICATION gives the connection up - HTTP11ClientProtocol.abort() ("close the connection and cause all
@@ -538,7 +641,7 @@ def one_round(sim, proto, t, round_no, flags, pre=None, on_body_lost=None):
         if ab["done"] or lost[0] is not None or t.disconnecting or proto.state == "CONNECTION_LOST":
             return False
         if framing == "close" and pos >= seg.head_end and not knobs["abort_in_close_body"]:
-            return False      # knob: see ASSUMPTIONS (repaired defect precondition avoided in a quarter of the abort rounds)
+            return False      # knob: see ASSUMPTIONS (repaired defect's precondition kept out of a quarter of the abort rounds)
         if transmitting() and not knobs["abort_while_transmitting"]:
             return False      # knob: likewise
         return True
@@ -569,17 +672,25 @@ def one_round(sim, proto, t, round_no, flags, pre=None, on_body_lost=None):
     # re-entrantly beneath the dataReceived call that delivered those body bytes.  Only for Content-Length and
     # close-delimited bodies, and only once the consumer holds every body byte the protocol has been given, so that the
     # model's position-based expectations stay exact.
+    # While deliverBody() is still handing over pieces the Response had buffered (consumer attached late), the consumer may
+    # hang up on any of them, for every framing: no delivery is being parsed then, and the pieces not yet handed over were
+    # received before the loss, so the position-based expectations hold once deliverBody() has returned.
     hang_target = None
-    if framing in ("cl", "close") and spec["body"] and sim.draw_bool(0.12, "consumer_hangs_up"):
-        hang_target = len(spec["body"]) if sim.draw_bool(0.7, "hang_at_end") else sim.draw_int(1, len(spec["body"]), "hang_after")
+    late = st["attach"] != "callback" and (paused_credit[0] > 0 or len(spec["chunks"]) > 1)    # several pieces may get buffered
+    if spec["body"] and not malformed and sim.draw_bool(0.4 if late else 0.12, "consumer_hangs_up"):
+        hang_target = len(spec["body"]) if sim.draw_bool(0.25 if late else 0.7, "hang_at_end") else \
+            sim.draw_int(1, min(len(spec["body"]), 6) if late else len(spec["body"]), "hang_after")    # late: early in the body, among the buffered pieces
 
     def on_data(body):
         if abort_from == "body-dataReceived" and sim.draw_bool(0.4, "abort_in_data"):
             do_abort("body-dataReceived")
         if hang_target is None or lost[0] is not None or len(rec["data"]) < hang_target:
             return
-        if rec["data"] != seg.body_received(pos):
+        behind = rec["data"] != seg.body_received(pos)
+        if not st["attaching"] and (behind or framing == "chunked"):
             return
+        if behind:
+            sim.probe("consumer_hung_up_with_buffered_pieces_pending")
         sim.probe("consumer_hung_up_inside_dataReceived")
         sim.event("consumer-hangs-up", len(rec["data"]))
         body.transport.stopProducing()
@@ -589,7 +700,7 @@ def one_round(sim, proto, t, round_no, flags, pre=None, on_body_lost=None):
     check()
     for _ in range(2000):
         sim.step(5000)
-        can_deliver = pos < k and t.reading and not t.disconnecting and lost[0] is None
+        can_deliver = pos < k and (t.reading or paused_credit[0] > 0) and not t.disconnecting and lost[0] is None
         can_attach = st["body"] is None and results and not isinstance(results[0], Failure) and \
             (st["attach"] == "later" or (st["attach"] == "after_loss" and lost[0] is not None))
         can_resume = st["body"] is not None and not t.reading and lost[0] is None
@@ -612,6 +723,11 @@ def one_round(sim, proto, t, round_no, flags, pre=None, on_body_lost=None):
                     sim.fault("segmentation")
             piece = S[pos:pos + n]
             pos += n
+            if not t.reading:
+                paused_credit[0] -= 1
+                sim.fault("delivered_after_pause")
+                if st["body"] is None and results:
+                    sim.probe("piece_buffered_by_response_while_paused")
             sim.event("deliver", n)
             with sim.guard("raised", "dataReceived"):
                 proto.dataReceived(piece)
@@ -661,7 +777,8 @@ def one_round(sim, proto, t, round_no, flags, pre=None, on_body_lost=None):
                   "round ended without loss in state %s pos=%d/%d" % (proto.state, pos, total))
         # a connection handed back for reuse must be readable again, else the next response can never arrive
         sim.check("quiescent-transport-resumed", t.reading, "state", "connection is QUIESCENT but its transport was left paused")
-    sim.check("request-fired-exactly-once", len(results) == 1, "deferred", lambda: "results at end of round: %s" % show(results))
+    flags["on_quiescent"] = None
+    sim.check("request-fired-exactly-once", len(results) == 1, "deferred" + suffix().replace("+abort", ""), lambda: "results at end of round: %s" % show(results))
     if spec["interims"]:
         sim.probe("interim_1xx")
     sim.state((method, framing, use_h11, bool(spec["interims"]), persistent, st["attach"],
@@ -678,11 +795,18 @@ def run(sim):
         _hh._nameEncoder._canonicalHeaderCache.clear()
     except AttributeError:
         pass
-    proto = _newclient.HTTP11ClientProtocol()
+    flags = {}
+
+    def quiescent_callback(p):
+        # what a connection pool passes in; the round in progress decides what it does
+        hook = flags.get("on_quiescent")
+        if hook is not None:
+            hook()
+
+    proto = _newclient.HTTP11ClientProtocol(quiescent_callback)
     t = net.SimTransport(sim, "client")
     t.protocol = proto
     proto.makeConnection(t)
-    flags = {}
     rounds = 0
     alive = True
     # the second request may be issued re-entrantly, from inside the first response's body connectionLost
@@ -690,13 +814,17 @@ def run(sim):
     reentrant = sim.draw_bool(0.3, "reentrant_second")
     holder = {}
 
-    def issue_second():
-        if proto.state == "QUIESCENT" and "pre" not in holder and not t.disconnecting:
-            sim.probe("second_request_from_body_connectionLost")
-            sim.event("reentrant-second-request")
-            flags["second_issued"] = True
-            holder["pre"] = issue(sim, proto, t, 1)
+    flags["malformed_while_transmitting"] = sim.draw_bool(MALFORMED_WHILE_TRANSMITTING_P, "malformed_while_transmitting")
+    flags["request_from_quiescent_callback"] = sim.draw_bool(REQUEST_FROM_QUIESCENT_CALLBACK_P, "request_from_quiescent_callback")
 
+    def issue_second(origin="body_connectionLost"):
+        if proto.state == "QUIESCENT" and "pre" not in holder and not t.disconnecting:
+            sim.probe("second_request_from_" + origin)
+            sim.event("reentrant-second-request", origin)
+            flags["second_issued"] = True
+            holder["pre"] = issue(sim, proto, t, 1, origin)
+
+    flags["issue_second"] = issue_second
     while alive and rounds < 2:
         if rounds == 0:
             alive = one_round(sim, proto, t, 0, flags, on_body_lost=issue_second if reentrant else None)
@@ -736,11 +864,27 @@ MUTANTS = [
     "_newclient.py NO_BODY_CODES gains 205 (seed C23-r5b) -> caught (response-length:cl/chunked/close) [status-code family added for it]",
     "_newclient.py allHeadersReceived: only 100/102/103 treated as interim -> caught (no-early-result, response-code)",
     "_newclient.py _connectionLost_ABORTING: parser not disconnected -> caught (failure-when-lost-before-headers, body-connectionLost-once:*+abort)",
-    "_newclient.py no _finishResponse handler in state ABORTING (UNCHANGED TREE, genuine) -> body-connectionLost-once:close+abort",
-    "_newclient.py abort() in state TRANSMITTING leaves the request Deferred unchained (UNCHANGED TREE, genuine) -> request-fires-after-abort-in-transit:before-head",
+    "_newclient.py no _finishResponse handler in state ABORTING (TREE AS FIRST EXAMINED, genuine, REPAIRED in /repo 864f11a) -> body-connectionLost-once:close+abort",
+    "_newclient.py abort() in state TRANSMITTING leaves the request Deferred unchained (TREE AS FIRST EXAMINED, genuine, REPAIRED in /repo ed25b2f) -> request-fires-after-abort-in-transit:before-head",
     "_newclient.py _connectionLost_TRANSMITTING: errback skipped -> caught (request-fires-when-lost:request-body-in-transit)",
     "_newclient.py _finishResponse_TRANSMITTING: chainDeferred dropped -> caught (response-when-complete:request-body-in-transit)",
     "_newclient.py cbRequestWritten: no chaining when the response Deferred has already fired -> caught (response-when-headers-complete)",
+    "_newclient.py _finishResponse_WAITING: parser not disconnected when the quiescent callback raised (seed C23-r6a; also with abortConnection) -> caught "
+    "(body-connectionLost-once:cl/chunked) [quiescent-callback family added for it]",
+    "_newclient.py _deliverBody_INITIAL: CONNECTED before the buffered pieces are handed over (seed C23-r6b) -> caught (no-data-after-lost) "
+    "[deliveries-after-pause + hang-up-during-hand-over families added for it]",
+    "_newclient.py _deliverBody_INITIAL: hand-over stops once the end of the body was reported beneath it -> caught (body-bytes-equal)",
+    "_newclient.py _bodyDataReceived_INITIAL: only the last piece kept -> caught (body-bytes-equal:cl/close too, since pieces arrive after the pause)",
+    "_newclient.py statusReceived: non-numeric status code taken as 200 -> caught (no-response-without-header-block:malformed-status-line)",
+    "_abnf.py _hexint: sign / 0x prefix accepted in a chunk size -> caught (body-bytes-equal:chunked)",
+    "_newclient.py HTTPClientParser.connectionLost: no errback when the reason is a ParseError -> caught (failure-when-lost-before-headers:deferred+malformed)",
+    "_newclient.py HTTP11ClientProtocol.dataReceived: parse error only closes the transport (parser disconnected by the loss) -> survived: equivalent "
+    "at the level of the statement (no verdict on the moment the failure is reported)",
+    "_newclient.py malformed response while TRANSMITTING drops _finishedRequest (TREE AS FIRST EXAMINED, genuine, REPAIRED in /repo f7168f5) -> raised:connectionLost+malformed-while-transmitting:AttributeError, "
+    "failure-when-lost-before-headers:deferred+malformed-while-transmitting, response-when-headers-complete:chunked+malformed-while-transmitting, "
+    "request-fires-when-lost:request-body-in-transit+malformed-while-transmitting",
+    "_newclient.py request() from the quiescent callback gets its parser disconnected instead of the finished one (TREE AS FIRST EXAMINED, genuine, REPAIRED in /repo 177d173) -> "
+    "body-connectionLost-once:cl/chunked+request-from-quiescent-callback, no-early-result:deferred+request-from-quiescent-callback",
     "http.py _dataReceived_BODY: '>=' -> '>' -> survived: equivalent (only adds an empty dataCallback(b''))",
     "_newclient.py isConnectionControlHeader: HEAD Content-Length not kept as entity header -> survived: outside the statement (header classification only)",
 ]
